@@ -154,3 +154,11 @@ PROPS["C19"]["functions"] += [_ER[2], _ER[3]]
 PROPS["C05"]["functions"] += _UNIT_ALG[:5] + _QTY_ALG
 
 ALL_IDS = [f"C{i:02d}" for i in range(1, 21)]
+
+PROPS["C07"] = dict(
+    functions=[T + "_pow", T + "Term._reduce_items"],
+    standins=["C07"], level="other",
+    level_note="only the exact power helper and the fast paths (one or two "
+               "items) of the item reduction are verified; the general sort / "
+               "group / merge path, recursive normalisation, the memoised "
+               "normal form and hash are bounded")
